@@ -62,6 +62,8 @@ def main():
     checks = ALL
     only = None
     own = False
+    fast = False
+    shard = None
     out = os.path.join(root, "results.json")
     a = sys.argv[3:]
     while a:
@@ -76,6 +78,12 @@ def main():
             a = a[1:]
         elif a[0] == "--out":
             out = a[1]
+            a = a[2:]
+        elif a[0] == "--fast":
+            fast = True         # seeds validated at import: apply and run the check(s) only
+            a = a[1:]
+        elif a[0] == "--shard":
+            shard = tuple(int(x) for x in a[1].split("/"))    # i/n: every n-th seed starting at i
             a = a[2:]
         else:
             a = a[1:]
@@ -102,6 +110,8 @@ def main():
             if os.path.isdir(d) and os.path.exists(os.path.join(d, "patch.diff")):
                 seeds.append((prop + "/" + x, prop, d))
     env_check = dict(os.environ, VERIF_REPO=repo, VERIF_TIER="quick")
+    if shard:
+        seeds = [x for k, x in enumerate(seeds) if k % shard[1] == shard[0]]
     for sid, prop, d in seeds:
         if only and sid not in only:
             continue
@@ -151,9 +161,10 @@ def main():
                 results[sid] = rec
                 json.dump(results, open(out, "w"), indent=1)
                 continue
-            rc, o = sh("go build ./... && go test -count=1 ./...", repo)
-            rec["suite_with_patch"] = "pass" if rc == 0 else "FAIL: " + o[-800:]
-            if cmd:
+            if not fast:
+                rc, o = sh("go build ./... && go test -count=1 ./...", repo)
+                rec["suite_with_patch"] = "pass" if rc == 0 else "FAIL: " + o[-800:]
+            if cmd and not fast:
                 place_demo()
                 rc1, o1 = sh(cmd, repo)
                 rec["demo_with_patch"] = "fail" if rc1 != 0 else "PASSES(unexpected)"
@@ -165,7 +176,8 @@ def main():
                 rc, o = sh(["git", "apply", "--whitespace=nowarn", patch], repo)
                 if rc != 0:
                     sh(["patch", "-p1", "--no-backup-if-mismatch", "-i", patch], repo)
-            rec["validated"] = (rec.get("suite_with_patch") == "pass" and rec.get("demo_with_patch") == "fail" and rec.get("demo_without_patch") == "pass")
+            rec["fast"] = fast
+            rec["validated"] = fast or (rec.get("suite_with_patch") == "pass" and rec.get("demo_with_patch") == "fail" and rec.get("demo_without_patch") == "pass")
             # run the checks with the patch applied
             rec["checks"] = {}
             for c in ([prop] if own else checks):
